@@ -8,3 +8,21 @@ claim("C13",
   "Trusted: go/types, go/ssa, go/cfg; the contract table in checker/rules_totality.go (regexp/syntax shapes, submatch index layout, sort.Interface, ring indices); user-supplied Rewriter/Visitor/Valuer implementations return the node kind they were given and do not mutate the AST. Not covered: general nil dereference, stack depth, standard-library panics.",
   "static analysis: guard-dominance dataflow on go/cfg + sealed-sum exhaustiveness + SSA dynamic-type sets",
   "DESIGN.md 4/C13, 3/E2, 3/E3")
+
+claim("C14",
+  "Independence and non-mutation are decided by an interprocedural origin/effect analysis on SSA: every clone function's result is fresh and shares no mutable node with its argument; every clone literal sets every field; after the whole-struct copy every pointer-like field is re-assigned; and every exported operation other than the listed in-place rewrites has no store that reaches memory of any parameter. Sharing and writes are structural, so the absence of a store/flow on every path settles them for all later mutation histories; structural equality of scalar fields copied by a struct assignment is by construction.",
+  "Trusted: go/ssa; field-insensitive origins (over-approximates writes, cannot miss one except through the stated callback assumption); the mutators table and immutable-leaf table in checker/rules_effects.go. Assumes user-supplied Visitor/Rewriter/Valuer/TypeMapper/FieldMapper do not mutate the AST. Not covered: value equality of clone and original beyond field coverage.",
+  "static analysis: interprocedural write-effect and freshness analysis on SSA with callback-parametric summaries",
+  "DESIGN.md 4/C14, 3/E6")
+
+claim("C17",
+  "Race freedom and result-independence follow from absence of writes to shared locations: no function outside package initialisation stores to, or calls a mutating method on, global-reachable memory; no global holds a sync primitive or channel; the package starts no goroutine and uses no unsafe/reflect; and the read-only operations on a shared AST write through no parameter. Schedules need not be enumerated because the argument is on locations, not interleavings. The rule is sufficient, not necessary: a correctly locked cache would be reported, since its lock discipline is not decided here.",
+  "Trusted: go/ssa, the effect analysis (E6), documented concurrency safety of *regexp.Regexp and *strings.Replacer; user-supplied callbacks do not mutate the AST. GroupByInterval/GroupByOffset (memo) are outside the shared set as the property states.",
+  "static analysis: global-write and parameter-write effects on SSA; type scan of package-level variables",
+  "DESIGN.md 4/C17, 3/E6")
+
+claim("C20",
+  "Decides the clauses with structural form: ColumnNames and everything it reaches are write-free and global-free and range over no map (pure function of the statement); the result is sized by the expanded column list and every store into it is at i+offset with i ranging over that same list; argument slicing is guarded. Uniqueness of generated names (suffix counter arithmetic) is a value property and is NOT covered.",
+  "Trusted: go/ssa, go/cfg, effect analysis, guard-dominance engine. Not covered: the de-duplication counter logic, alias-vs-generated clashes, exact naming of nested expressions.",
+  "static analysis: write effects + map-iteration order + guard-dominance on index expressions",
+  "DESIGN.md 4/C20")
